@@ -334,6 +334,7 @@ def campaign(prop: str, tier: str, verif_seed: int, spec: dict, workers: int | N
         os.makedirs(EVIDENCE, exist_ok=True)
         with open(os.path.join(EVIDENCE, f"{prop}.json"), "w") as fh:
             json.dump(ev, fh, indent=1, sort_keys=True, default=str)
+    print(f"# campaign_digest={dig.hexdigest()}", flush=True)
     print(f"# done: runs={runs_done} distinct={len(tot['keys'])} nontrivial={len(tot['ntkeys'])} wall={wall:.1f}s "
           f"violations={len(reported)} known={sum(known_hits.values())} errors={len(tot['errors'])}", flush=True)
     if exit_code == 0 and (tot["errors"] and runs_done == 0):
